@@ -39,4 +39,88 @@ theorem frame_formatNamedParams : ∀ (n : Nat) (fp : FmtParams), Frame (formatN
     rw [formatNamedParams]
     wpsimp [(ih _).wp_iff]
 
+theorem wp_fmtMatch {α} (x : Except String (List Char)) (f : List Char → PM α) (g : String → PM α)
+    (s : PState) (Q : α → PState → Prop) :
+    wp (parseFormatStringOperator.match_1 (fun _ => PM α) x f g) s Q ↔
+      (∀ a, x = .ok a → wp (f a) s Q) ∧ (∀ e, x = .error e → wp (g e) s Q) := by
+  cases x <;> simp
+
+theorem frame_parseFormatStringOperator (env : Env) (n : Nat) : Frame (parseFormatStringOperator env n) := by
+  intro s
+  unfold parseFormatStringOperator
+  wpsimp [(frame_formatNamedParams _ _).wp_iff, wp_fmtMatch]
+
+theorem frame_parseTextValue (env : Env) (n : Nat) : Frame (parseTextValue env n) := by
+  intro s
+  unfold parseTextValue
+  wpsimp [(frame_parseFormatStringOperator _ _).wp_iff]
+
+/-- `modify` of the command counter. -/
+theorem wp_bumpCmdId (s : PState) (Q : PUnit → PState → Prop) :
+    wp (modify fun s => { s with nextCmdId := s.nextCmdId + 1 }) s Q ↔
+      Q ⟨⟩ (upd s s.toks (s.nextCmdId + 1)) := by
+  rw [wp_modify]; rfl
+
+theorem frame_listBlock (env : Env) : ∀ n : Nat,
+    (∀ kind am acc, Frame (parseListValue env kind am n acc)) ∧
+    (∀ kind, Frame (parsePoryswitchListStatement env kind n)) ∧
+    (∀ kind tok acc, Frame (parsePoryswitchListCases env kind tok n acc)) := by
+  intro n
+  induction n with
+  | zero =>
+    refine ⟨?_, ?_, ?_⟩
+    · intro kind am acc s; rw [parseListValue]; wpsimp
+    · intro kind s; rw [parsePoryswitchListStatement]; wpsimp
+    · intro kind tok acc s; rw [parsePoryswitchListCases]; wpsimp
+  | succ n ih =>
+    obtain ⟨ih1, ih2, ih3⟩ := ih
+    refine ⟨?_, ?_, ?_⟩
+    · intro kind am acc s
+      rw [parseListValue]
+      cases kind <;>
+        wpsimp [(ih1 _ _ _).wp_iff, (ih2 _).wp_iff] <;>
+        (repeat' split)
+      all_goals (try wpsimp [(ih1 _ _ _).wp_iff, (ih2 _).wp_iff])
+      all_goals ((repeat' split) <;> first | trivial | wpsimp [(ih1 _ _ _).wp_iff, (ih2 _).wp_iff])
+    · intro kind s
+      rw [parsePoryswitchListStatement]
+      wpsimp [(ih3 _ _ _).wp_iff, (frame_parsePoryswitchHeader _).wp_iff]
+      intros
+      (repeat' split) <;> wpsimp
+    · intro kind tok acc s
+      rw [parsePoryswitchListCases]
+      wpsimp [(ih1 _ _ _).wp_iff, (ih3 _ _ _).wp_iff]
+
+theorem frame_parseListValue (env : Env) (kind : ListKind) (am : Bool) (n : Nat) (acc : List Tok) :
+    Frame (parseListValue env kind am n acc) := (frame_listBlock env n).1 kind am acc
+
+theorem frame_parseMovesOperator (env : Env) (n : Nat) : Frame (parseMovesOperator env n) := by
+  intro s
+  unfold parseMovesOperator
+  wpsimp [(frame_parseListValue _ _ _ _ _).wp_iff]
+
+theorem frame_cmdArgsLoop (env : Env) (sn : String) (id : Nat) (tok : Tok) :
+    ∀ (n : Nat) (a : CmdAcc), Frame (cmdArgsLoop env sn id tok n a) := by
+  intro n
+  induction n with
+  | zero => intro a s; rw [cmdArgsLoop]; wpsimp
+  | succ n ih =>
+    intro a s
+    rw [cmdArgsLoop]
+    wpsimp [(ih _).wp_iff, (frame_parseFormatStringOperator _ _).wp_iff, (frame_parseMovesOperator _ _).wp_iff]
+
+theorem frame_parseCommandStatement (env : Env) (sn : String) (n : Nat) :
+    Frame (parseCommandStatement env sn n) := by
+  intro s
+  unfold parseCommandStatement
+  wpsimp [(frame_cmdArgsLoop _ _ _ _ _ _).wp_iff, wp_bumpCmdId]
+
+theorem frame_expectPeekVarOrAutoVar (env : Env) (sn : String) (n : Nat) :
+    Frame (expectPeekVarOrAutoVar env sn n) := by
+  intro s
+  unfold expectPeekVarOrAutoVar
+  wpsimp [(frame_parseCommandStatement _ _ _).wp_iff]
+  (repeat' split) <;> wpsimp [(frame_parseCommandStatement _ _ _).wp_iff]
+  all_goals (intros; (repeat' split) <;> wpsimp)
+
 end Pory.Parser
